@@ -32,7 +32,7 @@ CHECKS = {
                 ref='3/C05'),
     'C06': dict(cat='other', engine='E2',
                 technique='bounded symbolic execution of the real filter classes over a symbolic real scalar; z3 (NRA) decides constraint, complement-untouched and idempotence identities',
-                text='Every index-set configuration (insertion orders included) in the bound is executed symbolically on the real UnitFilter/UnitFilterBlocked/SlipFilter/MeanFilter/FilterChain/FilterSequence/TupleFilter classes; z3 decides over all real vectors, prescribed values, normals and weights that constraints hold exactly, unconstrained entries are unchanged, second application is the identity, filtered matrix rows are unit rows.',
+                text='Every index-set configuration (insertion orders included) in the bound is executed symbolically on the real UnitFilter/UnitFilterBlocked/SlipFilter/MeanFilter/MeanFilterBlocked/FilterChain/FilterSequence/TupleFilter classes; z3 decides over all real vectors, prescribed values, normals and weights that constraints hold exactly, unconstrained entries are unchanged, second application is the identity, filtered matrix rows are unit rows.',
                 note='Trusted: SymReal instantiation, DAG printer, z3 5.1.0. Real arithmetic; non-zero normals, positive mean-filter weights; ignore_nans off. Outside: global (MPI) filters, rounding.',
                 ref='3/C06'),
     'C07': dict(cat='other', engine='E2',
